@@ -50,10 +50,23 @@ func main() {
 		obsOut   = flag.String("obs-out", "", "write raw obligations as JSON to this file instead of evidence (internal)")
 		overlayF = flag.String("overlay", "", "JSON file {path: content} of in-memory source overlays (internal, used by the sensitivity audit)")
 		list     = flag.Bool("list", false, "list implemented properties")
+		describe = flag.Bool("describe", false, "print the registry (level, explanation, trusted base) as JSON")
 		auditF   = flag.Bool("audit", false, "run only the sensitivity audit of the property and print it (development aid)")
 		verbose  = flag.Bool("v", false, "print every obligation")
 	)
 	flag.Parse()
+	if debugDump(*repo) {
+		return
+	}
+	if *describe {
+		out := map[string]interface{}{}
+		for id, d := range registry {
+			out[id] = map[string]interface{}{"level": d.Level, "explanation": d.Explanation, "trusted": d.Trusted, "not_decided": d.NotDecided}
+		}
+		b, _ := json.MarshalIndent(out, "", " ")
+		fmt.Println(string(b))
+		return
+	}
 	if *list {
 		ids := make([]string, 0, len(registry))
 		for id := range registry {
